@@ -477,6 +477,87 @@ def rule_clean_errors(ctx):
     ctx.anchor(n_src >= 10, f"input-derived variables found in the Python readers: {n_src} < 10")
 
 
+
+# ---- Py_buffer lifetime ---------------------------------------------------------------------------------------------------------
+def rule_buffer_lifetime(ctx, px):
+    R = "buffer-lifetime"
+    ctx.rep.rule(R, "every Py_buffer the compiled codecs hold: (a) the long-lived view `self._buffer` of a batch is released only in "
+                    "__dealloc__ or immediately before it is re-acquired -- no call that can raise lies between PyBuffer_Release(&self._buffer) "
+                    "and the PyObject_GetBuffer(..., &self._buffer, ...) that follows it on every path, so that no exception can leave the object "
+                    "usable with a released view (dangling pointer: later reads touch memory the object no longer owns); (b) a view acquired "
+                    "into a local is released on every normal path to the function's exit; (c) a cdef class that acquires `self._buffer` "
+                    "releases it in __dealloc__")
+    from ..cfg import CFG
+    n_rel = n_get = 0
+
+    def addr_arg(call, i):
+        if len(call.args) > i and isinstance(call.args[i], ast.Call) and unparse(call.args[i].func) == "__addr__" and call.args[i].args:
+            return unparse(call.args[i].args[0])
+        return None
+    holders = {}
+    for q, fi in sorted(px.funcs.items()):
+        calls = [n for n in ast.walk(fi.node) if isinstance(n, ast.Call) and unparse(n.func) in ("PyBuffer_Release", "PyObject_GetBuffer")]
+        if not calls:
+            continue
+        c = CFG(fi.node, q)
+        cn = {id(n.ast): n for n in c.nodes if n.kind == "call"}
+        for call in calls:
+            node = cn.get(id(call))
+            if node is None:
+                raise AnalysisError(f"buffer-lifetime: call at line {call.lineno} of {q} has no CFG node")
+            is_rel = unparse(call.func) == "PyBuffer_Release"
+            tgt = addr_arg(call, 0 if is_rel else 1)
+            if tgt is None:
+                raise AnalysisError(f"buffer-lifetime: cannot see the Py_buffer argument of {unparse(call)[:60]} in {q}")
+            field = tgt.startswith("self.") or "." in tgt
+            if is_rel:
+                n_rel += 1
+                if field and not q.endswith(".__dealloc__"):
+                    # next call events on every non-exceptional path: must be the re-acquisition, nothing that can raise before it
+                    bad = None
+                    seen, work = set(), [m for m, l in node.succ if l != "exc"]
+                    reacq = 0
+                    while work:
+                        m = work.pop()
+                        if m in seen:
+                            continue
+                        seen.add(m)
+                        if m.kind == "call":
+                            f = unparse(m.ast.func)
+                            if f == "__addr__" or f == "__cast__":
+                                pass
+                            elif f == "PyObject_GetBuffer" and addr_arg(m.ast, 1) == tgt:
+                                reacq += 1
+                                continue
+                            else:
+                                bad = m
+                                break
+                        if m is c.exit or m.kind in ("return", "raise", "await", "yield"):
+                            bad = m
+                            break
+                        work += [x for x, l in m.succ if l != "exc"]
+                    ob(ctx, R, fi, call.lineno, f"release-then-reacquire:{tgt}", bad is None and reacq >= 1,
+                       f"`{tgt}` is released and then `{unparse(bad.ast)[:60] if bad is not None and bad.ast is not None else 'the function exit'}` "
+                       f"(line {bad.lineno if bad is not None else 0}) runs before the view is re-acquired: if it raises, the object stays usable with a released view")
+                elif field:
+                    holders.setdefault(q.rsplit(".", 1)[0], set()).add("dealloc")
+            else:
+                n_get += 1
+                if field:
+                    holders.setdefault(q.rsplit(".", 1)[0], set()).add("get")
+                else:
+                    rels = [m for m in c.nodes if m.kind == "call" and unparse(m.ast.func) == "PyBuffer_Release" and addr_arg(m.ast, 0) == tgt]
+                    leak = c.exit in c.reachable([node], avoid=set(rels), exc=False)
+                    ob(ctx, R, fi, call.lineno, f"local-released:{tgt}", not leak, f"the view acquired into `{tgt}` can reach the function exit without PyBuffer_Release (the exporter stays locked)")
+    for cls, ev in sorted(holders.items()):
+        if "get" in ev and cls + ".__dealloc__" in px.funcs or "dealloc" in ev:
+            fi = px.funcs.get(cls + ".__dealloc__")
+            if fi is not None:
+                ob(ctx, R, fi, fi.node.lineno, "dealloc-releases", "dealloc" in ev, f"{cls} acquires self._buffer but __dealloc__ does not release it")
+    if n_rel < 12 or n_get < 12:
+        raise AnalysisError(f"buffer-lifetime: {n_rel} releases / {n_get} acquisitions found in the Cython sources, confirmed by hand: >= 12 each")
+
+
 def run(ctx):
     rep = ctx.rep
     rep.explanation = ("C10: check-before-use analysis of every raw-pointer read in the compiled decoders (Cython parse tree lowered to a CFG; "
@@ -492,6 +573,7 @@ def run(ctx):
     rule_progress(ctx, px, summaries)
     rule_crc(ctx, px)
     rule_clean_errors(ctx)
+    rule_buffer_lifetime(ctx, px)
     rep.nd("behaviour inside zlib / snappy / lz4 / zstd and CPython's allocator")
     rep.nd("validate_crc is assumed to run on the original buffer (before iteration), as documented; the legacy class does not assert it")
     rep.nd("value-level agreement of the two implementations on hostile input")
